@@ -48,3 +48,9 @@ func VerifResetRegistry() {
 func VerifReleaseLevel() ReleaseLevel {
 	return getReleaseLevel()
 }
+
+// VerifRegisterAsDatabase registers and injects the config database the way
+// the config module does when it starts.
+func VerifRegisterAsDatabase() error {
+	return registerAsDatabase()
+}
